@@ -58,9 +58,25 @@ func rV2T(v value) rtype {
 	return v.(structure)[0].(rtype)
 }
 
+// rvAddr in the value slot of a reflect.Value marks it as addressable (settable): it stands for the variable at p.
+type rvAddr struct{ p *value }
+
 // Given a reflect.Value, returns the underlying interpreter value.
 func rV2V(v value) value {
-	return v.(structure)[1]
+	x := v.(structure)[1]
+	if a, ok := x.(rvAddr); ok {
+		return *a.p
+	}
+	return x
+}
+
+// rvTarget returns the variable behind a settable reflect.Value.
+func rvTarget(fr *frame, v value, what string) *value {
+	a, ok := v.(structure)[1].(rvAddr)
+	if !ok {
+		panic(targetPanic{iface{fr.i.runtimeErrorString, "reflect: " + what + " using unaddressable value"}})
+	}
+	return a.p
 }
 
 // makeReflectType boxes up an rtype in a reflect.Type interface.
@@ -242,11 +258,18 @@ func reflectKind(t types.Type) reflect.Kind {
 
 func ext۰reflect۰Value۰Kind(fr *frame, args []value) value {
 	// Signature: func (reflect.Value) uint
+	if rV2T(args[0]).t == nil {
+		return uint(reflect.Invalid)
+	}
 	return uint(reflectKind(rV2T(args[0]).t))
 }
 
 func ext۰reflect۰Value۰String(fr *frame, args []value) value {
 	// Signature: func (reflect.Value) string
+	switch x := rV2V(args[0]).(type) {
+	case string, symstr, numtext:
+		return x
+	}
 	return toString(rV2V(args[0]))
 }
 
@@ -257,6 +280,9 @@ func ext۰reflect۰Value۰Type(fr *frame, args []value) value {
 
 func ext۰reflect۰Value۰Uint(fr *frame, args []value) value {
 	// Signature: func (reflect.Value) uint64
+	if x, ok := rV2V(args[0]).(sym); ok {
+		return fr.i.conv(types.Typ[types.Uint64], rV2T(args[0]).t, x)
+	}
 	switch v := rV2V(args[0]).(type) {
 	case uint:
 		return uint64(v)
@@ -368,13 +394,16 @@ func ext۰reflect۰Value۰Index(fr *frame, args []value) value {
 
 func ext۰reflect۰Value۰Bool(fr *frame, args []value) value {
 	// Signature: func (reflect.Value) bool
+	if x, ok := rV2V(args[0]).(sym); ok {
+		return x
+	}
 	return rV2V(args[0]).(bool)
 }
 
 func ext۰reflect۰Value۰CanAddr(fr *frame, args []value) value {
 	// Signature: func (v reflect.Value) bool
-	// Always false for our representation.
-	return false
+	_, ok := args[0].(structure)[1].(rvAddr)
+	return ok
 }
 
 func ext۰reflect۰Value۰CanInterface(fr *frame, args []value) value {
@@ -389,11 +418,11 @@ func ext۰reflect۰Value۰Elem(fr *frame, args []value) value {
 	case iface:
 		return makeReflectValue(x.t, x.v)
 	case *value:
-		var v value
-		if x != nil {
-			v = *x
+		et := rV2T(args[0]).t.Underlying().(*types.Pointer).Elem()
+		if x == nil {
+			return makeReflectValue(nil, nil) // the zero Value
 		}
-		return makeReflectValue(rV2T(args[0]).t.Underlying().(*types.Pointer).Elem(), v)
+		return structure{rtype{et}, rvAddr{x}}
 	default:
 		panic(fmt.Sprintf("reflect.(Value).Elem(%T)", x))
 	}
@@ -424,6 +453,9 @@ func ext۰reflect۰Value۰Interface(fr *frame, args []value) value {
 
 func ext۰reflect۰Value۰Int(fr *frame, args []value) value {
 	// Signature: func (reflect.Value) int64
+	if x, ok := rV2V(args[0]).(sym); ok {
+		return fr.i.conv(types.Typ[types.Int64], rV2T(args[0]).t, x)
+	}
 	switch x := rV2V(args[0]).(type) {
 	case int:
 		return int64(x)
@@ -468,8 +500,62 @@ func ext۰reflect۰Value۰IsValid(fr *frame, args []value) value {
 }
 
 func ext۰reflect۰Value۰Set(fr *frame, args []value) value {
-	// TODO(adonovan): implement.
+	p := rvTarget(fr, args[0], "reflect.Value.Set")
+	*p = copyVal(rV2V(args[1]))
 	return nil
+}
+
+func rvSetBasic(fr *frame, args []value, src types.BasicKind, what string) value {
+	p := rvTarget(fr, args[0], what)
+	dst := rV2T(args[0]).t
+	*p = fr.i.conv(dst, types.Typ[src], args[1])
+	return nil
+}
+
+func ext۰reflect۰Value۰SetInt(fr *frame, args []value) value {
+	return rvSetBasic(fr, args, types.Int64, "reflect.Value.SetInt")
+}
+func ext۰reflect۰Value۰SetUint(fr *frame, args []value) value {
+	return rvSetBasic(fr, args, types.Uint64, "reflect.Value.SetUint")
+}
+func ext۰reflect۰Value۰SetFloat(fr *frame, args []value) value {
+	return rvSetBasic(fr, args, types.Float64, "reflect.Value.SetFloat")
+}
+func ext۰reflect۰Value۰SetBool(fr *frame, args []value) value {
+	return rvSetBasic(fr, args, types.Bool, "reflect.Value.SetBool")
+}
+func ext۰reflect۰Value۰SetString(fr *frame, args []value) value {
+	return rvSetBasic(fr, args, types.String, "reflect.Value.SetString")
+}
+
+func ext۰reflect۰rtype۰AssignableTo(fr *frame, args []value) value {
+	a, b := args[0].(rtype).t, args[1].(iface).v.(rtype).t
+	if a == nil || b == nil {
+		return false
+	}
+	return types.AssignableTo(a, b)
+}
+
+func ext۰reflect۰rtype۰ConvertibleTo(fr *frame, args []value) value {
+	a, b := args[0].(rtype).t, args[1].(iface).v.(rtype).t
+	if a == nil || b == nil {
+		return false
+	}
+	return types.ConvertibleTo(a, b)
+}
+
+func ext۰reflect۰rtype۰Name(fr *frame, args []value) value {
+	switch t := args[0].(rtype).t.(type) {
+	case *types.Named:
+		return t.Obj().Name()
+	case *types.Basic:
+		return t.Name()
+	}
+	return ""
+}
+
+func ext۰reflect۰rtype۰Key(fr *frame, args []value) value {
+	return makeReflectType(rtype{args[0].(rtype).t.Underlying().(*types.Map).Key()})
 }
 
 func ext۰reflect۰valueInterface(fr *frame, args []value) value {
@@ -557,6 +643,11 @@ func initReflectProg(ex *Explorer, i *interpreter) {
 		"Out":       newMethod(i.reflectPackage, rtypeType, "Out"),
 		"Size":      newMethod(i.reflectPackage, rtypeType, "Size"),
 		"String":    newMethod(i.reflectPackage, rtypeType, "String"),
+
+		"AssignableTo":  newMethod(i.reflectPackage, rtypeType, "AssignableTo"),
+		"ConvertibleTo": newMethod(i.reflectPackage, rtypeType, "ConvertibleTo"),
+		"Name":          newMethod(i.reflectPackage, rtypeType, "Name"),
+		"Key":           newMethod(i.reflectPackage, rtypeType, "Key"),
 	}
 	i.errorMethods = methodSet{
 		"Error": newMethod(i.reflectPackage, errorType, "Error"),
